@@ -215,6 +215,10 @@ def render_canonical(spec, cls_suffix="", _providers_only=False, _uid=None):
         for nm, v in spec["validators"].items():
             if prov in v["providers"]:
                 body += _validator_def(nm, v, prov)
+        if prov != "model" and spec.get("falsy_listeners"):
+            # a listener that is falsy (an empty journal list subclass, an object with __len__ == 0)
+            body += (["    def __len__(self):", "        return 0"] if spec["falsy_listeners"] == "len" else
+                     ["    def __bool__(self):", "        return False"])
         if prov != "model" and spec.get("eq_listeners"):
             # distinct listener objects that compare (and hash) equal, e.g. value objects
             body += ["    def __eq__(self, other):", "        return getattr(other, '_eqkey', None) == 'same'", "    _eqkey = 'same'"]
